@@ -1,5 +1,6 @@
 """python -m pv.worker <PID> <spec.json> <out.json>: run one shard."""
 import faulthandler
+import os
 import importlib
 import json
 import sys
@@ -45,6 +46,12 @@ class Result(object):
 
 def main():
     faulthandler.enable()
+    try:
+        import resource
+        lim = int(os.environ.get('PV_SHARD_MEM_GB', '6')) * 1024 ** 3
+        resource.setrlimit(resource.RLIMIT_AS, (lim, lim))
+    except Exception:
+        pass
     pid, sp, op = sys.argv[1:4]
     with open(sp) as f:
         spec = json.load(f)
@@ -57,7 +64,6 @@ def main():
         sys.exit(3)
     with open(op + '.tmp', 'w') as f:
         json.dump(res.dump(), f, default=str)
-    import os
     os.rename(op + '.tmp', op)
 
 
